@@ -2345,8 +2345,13 @@ def trailing_zeros_fork(m, x, bits):
 for _i, (_n, _rx, _fn) in enumerate(SUMMARIES):
     if _n == 'int_trailing_zeros':
         def _tz(m, mt, args, tys, dty):
-            bits = {'u8': 8, 'u16': 16, 'u32': 32, 'u64': 64, 'u128': 128, 'usize': 64}[mt.group(1)]
-            return trailing_zeros_fork(m, args[0], bits)
+            ty = mt.group(1)
+            bits = {'u8': 8, 'u16': 16, 'u32': 32, 'u64': 64, 'u128': 128, 'usize': 64, 'i8': 8, 'i16': 16, 'i32': 32, 'i64': 64, 'i128': 128, 'isize': 64}[ty]
+            x = args[0]
+            if ty.startswith('i'):
+                # two's complement: the trailing zeros of a negative value are those of its magnitude (MIN = 2^(bits-1))
+                x = zabs(x)
+            return trailing_zeros_fork(m, x, bits)
         SUMMARIES[_i] = (_n, _rx, _tz)
 
 
@@ -4307,3 +4312,28 @@ def char_eq_ignore_case(m, mt, args, tys, dty):
         return z3.If(z3.And(c >= 65, c <= 90), c + 32, c)
     la, lb = low(a), low(b)
     return la == lb
+
+
+
+@summary(r'core::num::<impl (%s)>::(count_ones|count_zeros|is_power_of_two)' % INT)
+def int_popcount(m, mt, args, tys, dty):
+    """popcount of the two's-complement representation, abstracted: a fresh count p with the exact facts for p = 0, 1 and N
+    (zero, a single bit, all ones) - which decide `== 1` / is_power_of_two style tests exactly - and 0 <= p <= N otherwise
+    (an over-approximation for other uses: a spurious model is filtered by the native replay)"""
+    ty, op = mt.group(1), mt.group(2)
+    x = args[0]
+    nbits = {'u8': 8, 'u16': 16, 'u32': 32, 'u64': 64, 'u128': 128, 'usize': 64, 'i8': 8, 'i16': 16, 'i32': 32, 'i64': 64, 'i128': 128, 'isize': 64}[ty]
+    if not is_sym(x):
+        ones = bin(x % 2 ** nbits).count('1')
+    else:
+        u = x
+        if ty.startswith('i'):
+            u = z3.If(x < 0, x + 2 ** nbits, x)
+        ones = m.fresh('popcnt')
+        m.assume(z3.And(ones >= 0, ones <= nbits, (ones == 0) == (u == 0), (ones == nbits) == (u == 2 ** nbits - 1),
+                        (ones == 1) == z3.Or([u == 2 ** i for i in range(nbits)])))
+    if op == 'count_ones':
+        return ones
+    if op == 'count_zeros':
+        return nbits - ones
+    return ones == 1
